@@ -1289,7 +1289,7 @@ func init() {
 		Meta: func(c *core.Ctx) core.Meta {
 			return core.Meta{
 				Level: "exploration",
-				Rule: "program-level reference model: every program of depth <= D (D=2 quick, 3 thorough) over the operation table (Map, Filter, Reject, FilterNotNil, Distinct, Append, Concat, Extend, Remove(i in [-2,len+1]), RemoveItem, Reverse, Sort, SortByIndex, Minus, Intersection, Clone; Add, RemoveKeys, RemoveValues, Union, Intersection, Minus, MapKey, MapValue, Set, Clone; StreamSet Clone, Union, Intersection, MinusStreams, Minus) from a grid of initial collections, for the generic and the interface{} family, plus PRNG programs of length 10 (24) over mixed stream/set/stream-set handles; after EVERY step every live handle is re-read (ToArray, Len, Get(i), Contains, Keys/Values/Get/Size, per-key streams) and compared with the model, and the slice returned by ToArray is overwritten to test detachment; direct probes: Sort / Map / Filter / Reject whose callback panics at its k-th invocation (every k; the caller recovers: receiver and earlier results must be untouched), and Concat / Extend / Append with arguments spread from a slice the caller keeps (empty and nil parts in every position; argument list compared before/after, the same call repeated), Filter / Reject with a predicate that remembers (first occurrence; call log once per element), Sort of 2..100 records that tie on the key (the stable order is the prescribed one). " +
+				Rule: "program-level reference model: every program of depth <= D (D=2 quick, 3 thorough) over the operation table (Map, Filter, Reject, FilterNotNil, Distinct, Append, Concat, Extend, Remove(i in [-2,len+1]), RemoveItem, Reverse, Sort, SortByIndex, Minus, Intersection, Clone; Add, RemoveKeys, RemoveValues, Union, Intersection, Minus, MapKey, MapValue, Set, Clone; StreamSet Clone, Union, Intersection, MinusStreams, Minus) from a grid of initial collections, for the generic and the interface{} family, plus PRNG programs of length 10 (24) over mixed stream/set/stream-set handles; after EVERY step every live handle is re-read (ToArray, Len, Get(i), Contains, Keys/Values/Get/Size, per-key streams) and compared with the model, and the slice returned by ToArray is overwritten to test detachment; direct probes: Sort / Map / Filter / Reject whose callback panics at its k-th invocation (every k; the caller recovers: receiver and earlier results must be untouched), and Concat / Extend / Append with arguments spread from a slice the caller keeps (empty and nil parts in every position; argument list compared before/after, the same call repeated), Filter / Reject with a predicate that remembers (first occurrence; call log once per element), Sort of 2..100 records that tie on the key (the stable order is the prescribed one), SortByIndex with comparators reading the elements through Get / the receiver's slice / a slice header taken before the call, interface{} streams whose elements are rows ([]interface{} values) through From / Append / Concat. " +
 					"distinct_nontrivial = distinct programs (exhaustive ones are distinct by construction, PRNG ones by generator index)",
 				Assumptions: []string{"handle identity = pointer identity (an operation that returns an existing object is that handle)",
 					"in-place mutators: Set on sets and Remove on the interface{} stream (must return the receiver)",
